@@ -67,8 +67,114 @@ pub struct NpoSel {
     pub debug_lookups: bool,
 }
 
+/// One WitnessChecks bus interaction decoded from a committed preprocessed trace.
+#[derive(Clone, Debug)]
+pub struct BusEntry {
+    pub table: String,
+    pub row: usize,
+    /// operand position, e.g. "a", "b", "c", "out", "packed.a1", "coeff2"
+    pub pos: String,
+    /// witness slot (already divided by D)
+    pub slot: u64,
+    /// signed multiplicity (creator > 0, reader < 0)
+    pub mult: i64,
+}
+
+/// Per-op view of the ALU preprocessed columns (before lane scheduling / Horner packing).
+#[derive(Clone, Debug)]
+pub struct AluOpPrep {
+    pub kind: &'static str,
+    /// (position, slot, effective signed multiplicity)
+    pub operands: Vec<(&'static str, u64, i64)>,
+}
+
+#[derive(Clone, Debug, Default)]
+pub struct PrepTables {
+    pub entries: Vec<BusEntry>,
+    pub alu_ops: Vec<AluOpPrep>,
+}
+
+fn signed(x: u64, p: u64) -> i64 {
+    if x > p / 2 { -((p - x) as i64) } else { x as i64 }
+}
+
+/// Decode `[mult, idx]` lanes (Const / Public tables).
+fn decode_send_table(name: &str, flat: &[u64], width: usize, p: u64, d: u64, out: &mut Vec<BusEntry>) {
+    if width == 0 {
+        return;
+    }
+    for (r, row) in flat.chunks(width).enumerate() {
+        for lane in row.chunks(2) {
+            if lane.len() == 2 && lane[0] != 0 {
+                out.push(BusEntry {
+                    table: name.to_string(),
+                    row: r,
+                    pos: "out".into(),
+                    slot: lane[1] / d,
+                    mult: signed(lane[0], p),
+                });
+            }
+        }
+    }
+}
+
+/// Decode the scheduled ALU preprocessed trace (documented layout: 13 columns per lane, then
+/// `k-1` arity selectors and 6 columns per packed step).
+fn decode_alu_sched(flat: &[u64], width: usize, k: usize, p: u64, d: u64, out: &mut Vec<BusEntry>) {
+    let extra = (k - 1) + 6 * (k - 1);
+    if width < extra + 13 {
+        return;
+    }
+    let lanes = (width - extra) / 13;
+    for (r, row) in flat.chunks(width).enumerate() {
+        for l in 0..lanes {
+            let c = &row[l * 13..(l + 1) * 13];
+            let mult_a = signed(c[0], p);
+            let e = [
+                ("a", c[5], mult_a * signed(c[11], p)),
+                ("b", c[6], signed(c[9], p)),
+                ("c", c[7], mult_a * signed(c[12], p)),
+                ("out", c[8], signed(c[10], p)),
+            ];
+            for (pos, idx, m) in e {
+                if m != 0 {
+                    out.push(BusEntry {
+                        table: "alu".into(),
+                        row: r,
+                        pos: format!("lane{l}.{pos}"),
+                        slot: idx / d,
+                        mult: m,
+                    });
+                }
+            }
+        }
+        let base = lanes * 13 + (k - 1);
+        for t in 1..k {
+            let s = &row[base + 6 * (t - 1)..base + 6 * t];
+            for (pos, idx, m) in [("a", s[0], signed(s[4], p)), ("c", s[1], signed(s[5], p))] {
+                if m != 0 {
+                    out.push(BusEntry {
+                        table: "alu".into(),
+                        row: r,
+                        pos: format!("packed.{pos}{t}"),
+                        slot: idx / d,
+                        mult: m,
+                    });
+                }
+            }
+        }
+    }
+}
+
 pub trait Pv: Fc {
     type SC: StarkGenericConfig + 'static + Send + Sync;
+
+    /// Build the AIRs and decode every WitnessChecks interaction from the preprocessed traces.
+    fn prep(
+        circuit: &Circuit<Self::EF>,
+        packing: &TablePacking,
+        npo: &NpoSel,
+    ) -> Result<PrepTables, PvErr>;
 
     fn setup(
         circuit: &Circuit<Self::EF>,
@@ -100,6 +206,97 @@ macro_rules! impl_pv {
     ($ty:ty, $sc:ty, $cfg:expr, $d:literal) => {
         impl Pv for $ty {
             type SC = $sc;
+
+            fn prep(
+                circuit: &Circuit<Self::EF>,
+                packing: &TablePacking,
+                npo: &NpoSel,
+            ) -> Result<PrepTables, PvErr> {
+                use p3_air::BaseAir;
+                use p3_field::PrimeField64;
+                use p3_matrix::Matrix;
+                let mut npo_prep: Vec<Box<dyn NpoPreprocessor<Val<$sc>>>> = vec![];
+                let mut air_builders: Vec<Box<dyn NpoAirBuilder<$sc, $d>>> = vec![];
+                if npo.recompose && $d > 1 {
+                    npo_prep.push(recompose_preprocessor::<Val<$sc>>(true));
+                    air_builders.extend(recompose_air_builders::<$sc, $d>(1, true));
+                }
+                let r = catch(|| {
+                    get_airs_and_degrees_with_prep::<$sc, Self::EF, $d>(
+                        circuit,
+                        packing,
+                        &npo_prep,
+                        &air_builders,
+                        ConstraintProfile::Standard,
+                    )
+                });
+                let (airs_degrees, prim, nonprim) = match r {
+                    Ok(Ok(x)) => x,
+                    Ok(Err(e)) => return Err(PvErr::Setup(format!("{e:?}"))),
+                    Err(p) => return Err(PvErr::Setup(format!("panic: {p}"))),
+                };
+                let p = <Val<$sc> as PrimeField64>::ORDER_U64;
+                let d = $d as u64;
+                let mut t = PrepTables::default();
+                let to_u64 = |m: &p3_matrix::dense::RowMajorMatrix<Val<$sc>>| -> (Vec<u64>, usize) {
+                    (m.values.iter().map(|x| x.as_canonical_u64()).collect(), m.width())
+                };
+                for (i, (air, _)) in airs_degrees.iter().enumerate().take(3) {
+                    let Some(m) = BaseAir::<Val<$sc>>::preprocessed_trace(air) else {
+                        continue;
+                    };
+                    let (flat, w) = to_u64(&m);
+                    match i {
+                        0 => decode_send_table("const", &flat, w, p, d, &mut t.entries),
+                        1 => decode_send_table("public", &flat, w, p, d, &mut t.entries),
+                        _ => decode_alu_sched(&flat, w, packing.horner_packed_steps(), p, d, &mut t.entries),
+                    }
+                }
+                // non-primitive tables: flat per-op columns
+                let mut names: Vec<_> = nonprim.keys().cloned().collect();
+                names.sort();
+                for name in names {
+                    let flat: Vec<u64> = nonprim[&name].iter().map(|x| x.as_canonical_u64()).collect();
+                    let nm = name.as_str().to_string();
+                    let w = if nm == "recompose" { 2 } else if nm == "recompose/coeff" { 2 + 2 * $d } else { 0 };
+                    if w == 0 {
+                        continue;
+                    }
+                    for (r, row) in flat.chunks(w).enumerate() {
+                        let mut push = |pos: String, idx: u64, m: u64| {
+                            if m != 0 {
+                                t.entries.push(BusEntry { table: nm.clone(), row: r, pos, slot: idx / d, mult: signed(m, p) });
+                            }
+                        };
+                        push("out".into(), row[0], row[1]);
+                        for j in 0..(w - 2) / 2 {
+                            push(format!("coeff{j}"), row[2 + 2 * j], row[3 + 2 * j]);
+                        }
+                    }
+                }
+                // per-op ALU view (13 columns per op, before scheduling)
+                for c in prim[2].chunks(13) {
+                    if c.len() < 13 {
+                        break;
+                    }
+                    let v: Vec<u64> = c.iter().map(|x| x.as_canonical_u64()).collect();
+                    let mult_a = signed(v[0], p);
+                    if mult_a == 0 {
+                        continue; // padding row
+                    }
+                    let kind = if v[1] == 1 { "Add" } else if v[2] == 1 { "BoolCheck" } else if v[3] == 1 { "MulAdd" } else if v[4] == 1 { "HornerAcc" } else { "Mul" };
+                    t.alu_ops.push(AluOpPrep {
+                        kind,
+                        operands: vec![
+                            ("a", v[5] / d, mult_a * signed(v[11], p)),
+                            ("b", v[6] / d, signed(v[9], p)),
+                            ("c", v[7] / d, mult_a * signed(v[12], p)),
+                            ("out", v[8] / d, signed(v[10], p)),
+                        ],
+                    });
+                }
+                Ok(t)
+            }
 
             fn setup(
                 circuit: &Circuit<Self::EF>,
